@@ -5,6 +5,7 @@ package corr
 // handle discipline (C10) and emission (C06) can be checked; faults can be injected per call index.
 
 import (
+	"bytes"
 	"errors"
 	"fmt"
 	"net/netip"
@@ -85,6 +86,9 @@ type memWire struct {
 	// blockWhenEmpty: Read waits for the deadline when no packet is queued (engine runs); otherwise
 	// it returns os.ErrDeadlineExceeded at once (matcher-level runs).
 	blockWhenEmpty bool
+	// clobbered: the buffer handed to WriteTo changed while the write was in progress (between entry
+	// and return of the sink's call-back) — the caller gave away bytes it no longer owns
+	clobbered []string
 }
 
 func newMemWire() *memWire {
@@ -267,6 +271,11 @@ func (s *memSink) WriteTo(buf []byte, addrPort netip.AddrPort) error {
 	s.w.log.mu.Unlock()
 	if cb != nil {
 		cb(p, addrPort)
+		if !bytes.Equal(buf, p) {
+			s.w.mu.Lock()
+			s.w.clobbered = append(s.w.clobbered, fmt.Sprintf("write #%d: handed over %x, the same buffer held %x when the write returned", k, p, buf))
+			s.w.mu.Unlock()
+		}
 	}
 	return nil
 }
